@@ -8,7 +8,7 @@ MAXT = 2**63 - 1
 def model_hashes(inputs):
     """[(ty, lit, seed)] -> list of h1>>1 (int) or None (ignored), via the Lean Murmur/Canon model."""
     lines = ["hash %s %s %s" % t for t in inputs]
-    out, oc, err = core.run_model("hash", lines)
+    out, oc, err = core.run_model("dsmodel_theta", "hash", lines)
     res = []
     for l in out:
         w = l.split()
@@ -34,7 +34,9 @@ class C01(Spec):
     pid = "C01"
     props_modules = ["DSProofs.Props.C01"]
     harness = "theta_h"
+    model_exe = "dsmodel_theta"
     family = "theta"
+    tfamilies = ["theta"]
     rule = ("histories over 1-3 live update sketches (lg_k 5-7 quick / 5-10 thorough, all resize factors, p in {1,.5,.1,1e-3,1-2^-24}, "
             "seeds {9001, random}) with updates of all 12 overloads incl. boundary literals and 0-90% duplicates, interleaved "
             "trim/reset/compact/copy; a history is non-trivial when some sketch reached estimation mode by a rebuild (theta below "
@@ -233,3 +235,14 @@ class C01(Spec):
 
 
 SPEC = C01()
+
+CLAIM = dict(
+    text=("Kernel-checked theorems over ALL operation histories and configurations of an executable Lean model of the update theta "
+          "sketch (retained set = distinct nonzero hashes below theta, sorted/distinct; theta antitone, theta in seen or start value, "
+          "theta<start => >=k entries, exact while the stream fits, trim<=k, compact exposes the same content), plus a differential tie "
+          "of that model and of the Lean MurmurHash3/canonicalisation to the real headers on generated histories, plus the property "
+          "oracle on every implementation trace."),
+    note=("Modelled, not verified: the open-addressing table layout (abstracted to a sorted association list; L1). "
+          "Hash value 0 is dropped by design and excluded from the statement."),
+    technique="Lean 4 invariant proof by induction over operation lists + differential correspondence (model vs real headers) + trace oracle",
+    design="DESIGN.md §3 C01")
